@@ -141,35 +141,47 @@ theorem filterLoop_bounds (req : Req) (l out : List Row) (next : Nat)
 
 /-- what `readLocalCommitted` guarantees about the request it hands to the adapter -/
 theorem clampReq_spec (req r' : Req) (committed floor : Nat) (h : clampReq req committed floor = .inl r') :
-    r'.minSeq ≥ nextSeq floor ∧ 0 < r'.maxSeq ∧ r'.maxSeq ≤ committed := by
+    r'.minSeq ≥ nextSeq floor ∧ r'.maxSeq ≤ committed ∧
+    (r'.maxSeq = 0 → r'.reverse = true ∧ r'.fromSeq = 0) := by
   unfold clampReq at h
   dsimp only at h
-  by_cases h1 : req.reverse = false ∧ req.fromSeq > committed
+  by_cases h1 : req.reverse = false ∧ (if req.reverse = false ∧ req.fromSeq = 0 then 1 else req.fromSeq) > committed
   · rw [if_pos h1] at h; cases h
   · rw [if_neg h1] at h
-    by_cases h2 : committed = 0
-    · rw [if_pos h2] at h; cases h
-    · rw [if_neg h2] at h
-      cases h
-      dsimp only
-      refine ⟨Nat.le_max_right _ _, ?_, ?_⟩
-      · by_cases hm : req.maxSeq = 0 ∨ req.maxSeq > committed
-        · rw [if_pos hm]; omega
-        · rw [if_neg hm]; omega
-      · by_cases hm : req.maxSeq = 0 ∨ req.maxSeq > committed
-        · rw [if_pos hm]; omega
-        · rw [if_neg hm]; omega
+    cases h
+    dsimp only
+    have hmax : (if req.maxSeq = 0 ∨ req.maxSeq > committed then committed else req.maxSeq) ≤ committed ∧
+        ((if req.maxSeq = 0 ∨ req.maxSeq > committed then committed else req.maxSeq) = 0 → committed = 0) := by
+      by_cases hm : req.maxSeq = 0 ∨ req.maxSeq > committed
+      · rw [if_pos hm]; exact ⟨Nat.le_refl _, fun h => h⟩
+      · rw [if_neg hm]; omega
+    refine ⟨Nat.le_max_right _ _, hmax.1, ?_⟩
+    intro hz
+    have hc0 := hmax.2 hz
+    subst hc0
+    cases hr : req.reverse with
+    | false =>
+      exfalso; apply h1
+      refine ⟨hr, ?_⟩
+      by_cases hf : req.reverse = false ∧ req.fromSeq = 0
+      · rw [if_pos hf]; omega
+      · rw [if_neg hf]
+        have : req.fromSeq ≠ 0 := fun h0 => hf ⟨hr, h0⟩
+        omega
+    | true =>
+      refine ⟨rfl, ?_⟩
+      simp only [Bool.true_eq_false, false_and, if_false, true_and]
+      by_cases hg : req.fromSeq > 0
+      · rw [if_pos hg]
+      · rw [if_neg hg]; omega
 
 theorem clampReq_inr (req : Req) (r0 : RRes) (committed floor : Nat) (h : clampReq req committed floor = .inr r0) :
     r0.msgs = [] := by
   unfold clampReq at h
   dsimp only at h
-  by_cases h1 : req.reverse = false ∧ req.fromSeq > committed
+  by_cases h1 : req.reverse = false ∧ (if req.reverse = false ∧ req.fromSeq = 0 then 1 else req.fromSeq) > committed
   · rw [if_pos h1] at h; cases h; rfl
-  · rw [if_neg h1] at h
-    by_cases h2 : committed = 0
-    · rw [if_pos h2] at h; cases h; rfl
-    · rw [if_neg h2] at h; cases h
+  · rw [if_neg h1] at h; cases h
 
 /-- **c10_read_bounds**: whatever `FromSeq/MaxSeq/MinSeq/Limit/MaxBytes` are
     (0 and 2^64-1 included), forward, reverse or "latest", with HW = 0 or not,
@@ -193,7 +205,7 @@ theorem c10_read_bounds (ch ch' : Chan) (req : Req) (rts minISR : Nat) (r : RRes
     intro m hm; cases hm
   | inl r' =>
     rw [hcl] at h
-    obtain ⟨hmin, hmaxpos, hmax⟩ := clampReq_spec req r' committed floor hcl
+    obtain ⟨hmin, hmax, hmax0⟩ := clampReq_spec req r' committed floor hcl
     have hns : nextSeq floor = floor + 1 := by unfold nextSeq; rw [if_neg (Nat.ne_of_lt hfloor)]
     have hminpos : r'.minSeq > 0 := by omega
     unfold adapterRead at h
@@ -207,6 +219,16 @@ theorem c10_read_bounds (ch ch' : Chan) (req : Req) (rts minISR : Nat) (r : RRes
       · rw [if_pos hB] at h
         simp only [Prod.mk.injEq, Except.ok.injEq] at h; rw [← h.2]; intro m hm; cases hm
       · rw [if_neg hB] at h
+        -- with nothing committed the request is a reverse one starting at 0: the adapter's floor guard fired
+        have hmaxpos : r'.maxSeq > 0 := by
+          cases Nat.eq_zero_or_pos r'.maxSeq with
+          | inr h => exact h
+          | inl hz =>
+            exfalso
+            obtain ⟨hrv, hfz⟩ := hmax0 hz
+            apply hA
+            refine ⟨hrv, hminpos, ?_⟩
+            rw [hrv, hfz]; simpa using hminpos
         generalize listBySeq (loadLEO ch).2
           (if (!r'.reverse) = true ∧ r'.minSeq > 0 ∧ r'.fromSeq < r'.minSeq then r'.minSeq else r'.fromSeq)
           r'.limit r'.maxBytes r'.reverse = lr at h
@@ -233,7 +255,7 @@ example : okSeqs (readLocal { rows := (List.range 6).map (fun i => mkRow (i + 1)
   decide +kernel
 
 -- the repaired corner: nothing committed, forward read from sequence 0 returns nothing
-example : okSeqs (readLocal { rows := [mkRow 1 ⟨7, [], [], [1], 1⟩] } ⟨0, 0, 0, 0, 0, false⟩ 0 2).2 = some ([], 0) := by
+example : okSeqs (readLocal { rows := [mkRow 1 ⟨7, [], [], [1], 1⟩] } ⟨0, 0, 0, 0, 0, false⟩ 0 2).2 = some ([], 1) := by
   decide +kernel
 
 /-! ### no barrier record in a sync page -/
@@ -310,14 +332,22 @@ theorem c10_floor_mono_adopt (ch : Chan) (through : Nat) :
 
 example : (retOrZero (adopt { ret := some ⟨5, 3, 9⟩ } 2).1) = ⟨5, 3, 9⟩ := by decide
 
+theorem ite_ge_of_branches (c1 c2 : Prop) [Decidable c1] [Decidable c2] (sp a b : Nat)
+    (h1 : c1 → sp ≤ a) (h2 : c2 → sp ≤ b) :
+    sp ≤ (if c1 then a else if c2 then b else sp) := by
+  by_cases x : c1
+  · rw [if_pos x]; exact h1 x
+  · rw [if_neg x]
+    by_cases y : c2
+    · rw [if_pos y]; exact h2 y
+    · rw [if_neg y]; exact Nat.le_refl _
+
 theorem trimPlan_phys_ge (rows : List Row) (sp through mm mb : Nat) : sp ≤ (trimPlan rows sp through mm mb).phys := by
   unfold trimPlan
   dsimp only
-  split
-  · rename_i hc; omega
-  · split
-    · rename_i hc; omega
-    · exact Nat.le_refl _
+  apply ite_ge_of_branches
+  · intro hc; omega
+  · intro hc; omega
 
 /-- **c10_floor_mono** (trim) and **c10_physical_le_logical**: a physical trim
     never lowers either boundary, never touches the logical one, leaves
